@@ -26,8 +26,32 @@ class Broken(Exception):
 
 
 def load_groups():
+    """groups.json: build configurations; overlays/*.json: harness modules appended per group.
+
+    VERIF_OVERLAY_FILTER=<regex on the harness path> restricts the overlays (used while developing
+    one harness file so that somebody else's half-written harness cannot break the build).
+    """
+    import glob
+    import re
+
     with open(os.path.join(VERIF, "checks", "groups.json")) as f:
-        return json.load(f)
+        groups = json.load(f)
+    for p in sorted(glob.glob(os.path.join(VERIF, "checks", "groups.d", "*.json"))):
+        with open(p) as f:
+            groups.update(json.load(f))
+    flt = os.environ.get("VERIF_OVERLAY_FILTER")
+    for g in groups.values():
+        g.setdefault("overlays", [])
+    for p in sorted(glob.glob(os.path.join(VERIF, "checks", "overlays", "*.json"))):
+        with open(p) as f:
+            for ov in json.load(f):
+                if flt and not re.search(flt, ov["harness"]):
+                    continue
+                for gname in ov["groups"]:
+                    if gname not in groups:
+                        raise Broken(f"{p}: unknown group {gname}")
+                    groups[gname]["overlays"].append(ov)
+    return groups
 
 
 def _read(p):
